@@ -8,6 +8,11 @@
 //!   query <target>    -> ok <map> | panic ## verdict   (oracle: independent single decode)
 //!   pathparam <seg>   -> ok <v> | panic ## verdict     (through ParamSegment + ParamsMap::insert)
 //!   roundtrip <map>   -> <qs> <map'|panic> ## verdict  (to_query_string then RequestUrl::parse)
+//!   routeparam flat|nested <seg1> <seg2> -> ok <org> <id> | nomatch | panic ## verdict
+//!                     (server-renders a real <Router> app with the route /o/:org/u/:id — <FlatRoutes>, or
+//!                      <Routes> with a <ParentRoute path="/o/:org"> around <Route path="u/:id"> — for the
+//!                      request /o/<seg1>/u/<seg2> and reports what `use_params_map()` hands to the view)
+//!   hookquery <target> -> ok <map> | panic ## verdict  (same app, what `use_query_map()` hands to the view)
 //! <map> is `{}` or `k:v,v;k:v` (hex fields), in the map's own order.
 use hx_common::*;
 use leptos_router::{
@@ -15,7 +20,68 @@ use leptos_router::{
     params::ParamsMap,
     ParamSegment, PossibleRouteMatch,
 };
+use futures::StreamExt;
+use leptos::prelude::*;
+use leptos_router::{
+    components::{FlatRoutes, Outlet, ParentRoute, Route, Router, Routes},
+    hooks::{use_params_map, use_query_map},
+    path,
+};
 use std::panic::{catch_unwind, AssertUnwindSafe};
+
+/// server-render a one-route application for `target`; the route's view prints what the hooks return
+fn render_app(target: &str, nested: bool) -> String {
+    let _ = any_spawner::Executor::init_futures_executor();
+    let owner = Owner::new();
+    let html = owner.with(|| {
+        provide_context(RequestUrl::new(target));
+        let show = || {
+            let params = use_params_map();
+            let query = use_query_map();
+            move || {
+                let p = params.get();
+                let f = |k: &str| p.get(k).map(|v| hex(v.as_bytes())).unwrap_or_else(|| "none".into());
+                format!("[[{} {} {}]]", f("org"), f("id"), show_map(&query.get()))
+            }
+        };
+        if nested {
+            let app = view! {
+                <Router>
+                    <Routes fallback=|| "[[nomatch]]">
+                        <ParentRoute path=path!("/o/:org") view=|| view! { <Outlet/> }>
+                            <Route path=path!("u/:id") view=show/>
+                        </ParentRoute>
+                        <Route path=path!("/p") view=show/>
+                    </Routes>
+                </Router>
+            };
+            futures::executor::block_on(app.to_html_stream_in_order().collect::<String>())
+        } else {
+            let app = view! {
+                <Router>
+                    <FlatRoutes fallback=|| "[[nomatch]]">
+                        <Route path=path!("/o/:org/u/:id") view=show/>
+                        <Route path=path!("/p") view=show/>
+                    </FlatRoutes>
+                </Router>
+            };
+            futures::executor::block_on(app.to_html_stream_in_order().collect::<String>())
+        }
+    });
+    owner.cleanup();
+    html
+}
+
+/// the `[[ … ]]` payload of the rendered page
+fn payload(html: &str) -> Option<Vec<String>> {
+    let a = html.find("[[")? + 2;
+    let b = html[a..].find("]]")? + a;
+    Some(html[a..b].split(' ').map(String::from).collect())
+}
+
+fn once_seg(seg: &str) -> String {
+    String::from_utf8_lossy(&percent_encoding::percent_decode_str(seg).collect::<Vec<u8>>()).into_owned()
+}
 
 fn show_map(m: &ParamsMap) -> String {
     // ParamsMap exposes its grouping only through into_iter (k, v) in stored order
@@ -137,6 +203,40 @@ fn op(line: &str) -> String {
                 Err(_) => "panic ## fail panic".into(),
             }
         }
+        ["routeparam", kind, h1, h2] => {
+            let (Some(s1), Some(s2)) = (unhex_str(h1), unhex_str(h2)) else { return "bad-op".into() };
+            let nested = match *kind {
+                "flat" => false,
+                "nested" => true,
+                _ => return "bad-op".into(),
+            };
+            let target = format!("/o/{s1}/u/{s2}");
+            match catch_unwind(AssertUnwindSafe(|| render_app(&target, nested))) {
+                Ok(html) => match payload(&html).as_deref() {
+                    Some([org, id, _]) => {
+                        let want = (hex(once_seg(&s1).as_bytes()), hex(once_seg(&s2).as_bytes()));
+                        let v = if (org.as_str(), id.as_str()) == (want.0.as_str(), want.1.as_str()) { "ok" } else { "fail not-once" };
+                        format!("ok {org} {id} ## {v}")
+                    }
+                    _ => "nomatch ## fail nomatch".into(),
+                },
+                Err(_) => "panic ## fail panic".into(),
+            }
+        }
+        ["hookquery", h] => {
+            let Some(t) = unhex_str(h) else { return "bad-op".into() };
+            let spec = once_decoded(raw_query(&t));
+            match catch_unwind(AssertUnwindSafe(|| render_app(&t, false))) {
+                Ok(html) => match payload(&html).as_deref() {
+                    Some([_, _, got]) => {
+                        let v = if *got == show_groups(&spec) { "ok" } else { "fail double-decode" };
+                        format!("ok {got} ## {v}")
+                    }
+                    _ => "nomatch ## fail nomatch".into(),
+                },
+                Err(_) => "panic ## fail panic".into(),
+            }
+        }
         ["roundtrip", ms] => {
             let Some(groups) = parse_map(ms) else { return "bad-op".into() };
             let r = catch_unwind(|| {
@@ -217,7 +317,7 @@ fn gen(seed: u64, n: usize, path: &str) -> std::io::Result<()> {
     let mut f = std::io::BufWriter::new(std::fs::File::create(path)?);
     for i in 0..n {
         writeln!(f, "case {i}")?;
-        match r.below(10) {
+        match r.below(13) {
             0 | 1 => writeln!(f, "escape {}", hex(gen_plain(&mut r, 8).as_bytes()))?,
             2 => writeln!(f, "unescape {}", hex(gen_str(&mut r, 5, &[]).as_bytes()))?,
             3 | 4 | 5 => {
@@ -254,6 +354,30 @@ fn gen(seed: u64, n: usize, path: &str) -> std::io::Result<()> {
                 } else {
                     writeln!(f, "pathparam {}", hex(s.as_bytes()))?
                 }
+            }
+            10 | 11 => {
+                // the same raw-segment domain, through a real <Router> application (flat and nested routes)
+                let avoid = ['/', '?', '#', 'é', '日', '😀', '"', '<', '>', '+', '.'];
+                let mut seg = |r: &mut Rng| {
+                    let s = gen_str(r, 3, &avoid);
+                    if s.is_empty() { "%2541".to_string() } else { s }
+                };
+                let (a, b) = (seg(&mut r), seg(&mut r));
+                let kind = if r.chance(2, 3) { "nested" } else { "flat" };
+                writeln!(f, "routeparam {kind} {} {}", hex(a.as_bytes()), hex(b.as_bytes()))?
+            }
+            12 => {
+                let pairs = r.range(1, 3);
+                let mut q = String::new();
+                for j in 0..pairs {
+                    if j > 0 {
+                        q.push('&');
+                    }
+                    q.push_str(&gen_str(&mut r, 2, &['#', '&', '=']));
+                    q.push('=');
+                    q.push_str(&gen_str(&mut r, 4, &['#']));
+                }
+                writeln!(f, "hookquery {}", hex(format!("/p?{q}").as_bytes()))?
             }
             _ => {
                 let keys = r.range(0, 3);
